@@ -28,21 +28,24 @@ def range_pool(rng, spec):
     absolute_pts = sorted(set([0, max(0, first - 24), max(0, first - 8), max(0, first - 3), first, f0, f0 + 8, first + 4, first + 8, first + 11,
                                (first + last) // 2, 8 * ((first + last) // 16), last - 8 if last >= 8 else 0, last, last + 1, last + 8,
                                8 * (last // 8) + 8, last + 16, last + 80] + (rng.sample(ts, min(3, len(ts))) if ts else [])))
+    # the whole real line: negative bounds, zero, bounds beyond the log on both sides, start > end, equal bounds
+    absolute_pts = sorted(set(absolute_pts + [-800, -80, -8, -3, -1]))
     out = []
     for a in [None] + absolute_pts:
         for b in [None] + absolute_pts:
             if a is None and b is None:
                 continue
-            if a is not None and b is not None and b < a:
+            if a is not None and b is not None and b < a and rng.random() < 0.8:
                 continue
             out.append({'start': a, 'end': b, 'abs': True, 't0': None, 'ts': False})
     rel_pts = sorted(set([0, 3, 8, 12, 16, 24, last - first, last - first + 1, last - first + 8, last - first + 16, last - first + 80,
                           max(0, (last - first) // 2)] + [k + f for k in (0, 8, 16, 8 * max(0, (last - first) // 16)) for f in (1, 4, 5, 7)]))
+    rel_pts = sorted(set(rel_pts + [-(last - first) - 80, -80, -40, -8, -5, -1]))
     for a in [None] + rel_pts:
         for b in [None] + rel_pts:
             if a is None and b is None:
                 continue
-            if a is not None and b is not None and b < a:
+            if a is not None and b is not None and b < a and rng.random() < 0.8:
                 continue
             out.append({'start': a, 'end': b, 'abs': False, 't0': None, 'ts': False})
             out.append({'start': a, 'end': b, 'abs': None, 't0': None, 'ts': False})
@@ -58,7 +61,7 @@ def range_pool(rng, spec):
                     pts = absolute_pts if absolute else rel_pts
                     a = None if a_none else rng.choice(pts)
                     b = None if b_none else rng.choice(pts)
-                    if a is not None and b is not None and b < a:
+                    if a is not None and b is not None and b < a and rng.random() < 0.8:
                         a, b = b, a
                     mixed.append({'start': a, 'end': b, 'abs': given, 't0': None, 'rs': rs, 're': re_})
     rng.shuffle(mixed)
@@ -73,10 +76,16 @@ def range_pool(rng, spec):
             extra.append(dict(r, ts=True, abs=None))
         else:
             extra.append(dict(r, t0=rng.choice([first, f0, max(0, f0 - 8), first + 3, 0])))
-    out = out + extra + [{'start': None, 'end': None, 'abs': False, 't0': None, 'ts': False},
+    must = [{'start': -80, 'end': -40, 'abs': False, 't0': None, 'ts': False}, {'start': -8, 'end': None, 'abs': False, 't0': None, 'ts': False},
+            {'start': -8, 'end': None, 'abs': True, 't0': None, 'ts': False}, {'start': None, 'end': -8, 'abs': False, 't0': None, 'ts': False},
+            {'start': -80, 'end': -40, 'abs': None, 't0': None, 'rs': 't', 're': 't'}, {'start': 0, 'end': None, 'abs': False, 't0': None, 'ts': False},
+            {'start': 0, 'end': None, 'abs': True, 't0': None, 'ts': False}, {'start': 0, 'end': None, 'abs': None, 't0': None, 'rs': 't', 're': 'f'},
+            {'start': None, 'end': 0, 'abs': True, 't0': None, 'ts': False}, {'start': None, 'end': 0, 'abs': False, 't0': None, 'ts': False},
+            {'start': last, 'end': first, 'abs': True, 't0': None, 'ts': False}]
+    out = must + out + extra + [{'start': None, 'end': None, 'abs': False, 't0': None, 'ts': False},
                          {'start': None, 'end': None, 'abs': True, 't0': None, 'ts': False}]
     rng.shuffle(out)
-    return out
+    return must + out
 
 
 def boundaries(spec_msgs_sizes):
@@ -94,7 +103,7 @@ def cases_for_log(ctx, spec, budget):
     rng.shuffle(tsel)
     tsel = tsel[:4]
     type_sets = [None] + [list(s) for n in range(1, len(tsel) + 1) for s in itertools.combinations(tsel, n)] + [[K.UNK2 + 7]] + [[]]
-    src_sets = [None] + [list(s) for n in range(1, len(present_srcs) + 1) for s in itertools.combinations(present_srcs, n)] + [[9], present_srcs[:1] + [9]]
+    src_sets = [None] + [list(s) for n in range(1, len(present_srcs) + 1) for s in itertools.combinations(present_srcs, n)] + [[9], present_srcs[:1] + [9], []]
     out = []
 
     def rnd_flags():
@@ -102,7 +111,7 @@ def cases_for_log(ctx, spec, budget):
 
     def mk(**kw):
         c = {'log': spec, 'flags': DEFAULT_FLAGS, 'max_bytes': None, 'srcs': None, 'srcs_form': None, 'types': None, 'types_form': None, 'range': None,
-             'late_srcs': None, 'options': None}
+             'late_srcs': None, 'late_form': None, 'options': None}
         c.update(kw)
         out.append(c)
     mk()
@@ -135,6 +144,28 @@ def cases_for_log(ctx, spec, budget):
     for ss in src_sets:
         if ss is not None:
             mk(srcs=ss, srcs_form=rng.choice(['int', 'list', 'tuple']), types=rng.choice(type_sets), flags=rnd_flags())
+    # axis: falsy but meaningful values given bare and in containers: type 0 (MessageType.INVALID), source id 0, an empty
+    # source request (nothing), an empty type request (no filter), whether or not the log contains type 0 / source 0
+    for form in ('single', 'set', 'list', 'tuple', 'gen'):
+        mk(types=[K.INVALID0], types_form=form, flags=rnd_flags())
+        mk(types=[K.INVALID0], types_form=form, range=rng.choice(rp), srcs=rng.choice(src_sets), flags=rnd_flags())
+    for form in ('int', 'set', 'list', 'gen', 'ndarray'):
+        mk(srcs=[0], srcs_form=form, flags=rnd_flags())
+        mk(srcs=[0], srcs_form=form, types=rng.choice(type_sets), range=rng.choice([None, rng.choice(rp)]), flags=rnd_flags())
+    mk(late_srcs=[0], late_form='list')      # (a bare int is accepted by the constructor only: filter_in_place is typed Iterable[int])
+    for form in ('set', 'list', 'tuple', 'frozenset'):
+        mk(srcs=[], srcs_form=form)
+        mk(types=[], types_form=form if form != 'frozenset' else 'set', srcs=rng.choice(src_sets))
+    # axis: iterable arguments that can be consumed only once, or are not plain containers
+    for form in ('gen', 'iter', 'map', 'filter', 'keys', 'frozenset', 'ndarray', 'range'):
+        ss = rng.choice([x for x in src_sets if x])
+        mk(srcs=ss, srcs_form=form, flags=rnd_flags())
+        mk(srcs=ss, srcs_form=form, types=rng.choice(type_sets), range=rng.choice([None, rng.choice(rp)]), flags=rnd_flags())
+        mk(late_srcs=ss, late_form=form, flags=rnd_flags())
+    for form in ('gen', 'iter', 'map', 'filter', 'keys', 'frozenset'):
+        ts = rng.choice([x for x in type_sets if x])
+        mk(types=ts, types_form=form, flags=rnd_flags())
+        mk(types=ts, types_form=form, range=rng.choice(rp), srcs=rng.choice(src_sets), flags=rnd_flags())
     # axis: options that must not matter (progress / gap warnings, the index loaded from a file saved by an earlier open)
     for _ in range(12):
         mk(options={'index': rng.choice(['saved', 'saved', 'fresh']), 'warn_on_gaps': rng.random() < 0.5, 'show_progress': rng.random() < 0.5},
@@ -428,7 +459,7 @@ def time_oracle(c, rec):
 # ---------------------------------------------------------------------------------------------------------
 
 def shrink(ev, case, sig, rounds=12):
-    cur = {k: case.get(k) for k in ('log', 'flags', 'max_bytes', 'srcs', 'srcs_form', 'types', 'types_form', 'range', 'late_srcs', 'options')}
+    cur = {k: case.get(k) for k in ('log', 'flags', 'max_bytes', 'srcs', 'srcs_form', 'types', 'types_form', 'range', 'late_srcs', 'late_form', 'options')}
     for rnd in range(rounds):
         cands = []
         log = cur['log']
@@ -479,7 +510,7 @@ def describe(c, rec):
             'impl': rec['impl'].get('err') or rec['impl'].get('shadow'),
             'spec_offsets': [o for o, _ in rec['spec'][1]] if rec['spec'][0] == 'ok' else rec['spec'],
             'model': [o for o, _ in rec['model'][1]] if rec['model'][0] == 'ok' else rec['model'],
-            'case': {k: c.get(k) for k in ('log', 'flags', 'max_bytes', 'srcs', 'srcs_form', 'types', 'types_form', 'range', 'late_srcs', 'options')}}
+            'case': {k: c.get(k) for k in ('log', 'flags', 'max_bytes', 'srcs', 'srcs_form', 'types', 'types_form', 'range', 'late_srcs', 'late_form', 'options')}}
 
 
 def run(ctx):
@@ -541,7 +572,7 @@ def run(ctx):
     for c in cases:
         rec = recs[c['id']]
         nm = len(rec['log']['msgs'])
-        key = (c['logkey'], json.dumps([c['flags'], c['max_bytes'], c['srcs'], c.get('srcs_form'), c['types'], c.get('types_form'), c['range'], c.get('late_srcs'), c.get('options')]))
+        key = (c['logkey'], json.dumps([c['flags'], c['max_bytes'], c['srcs'], c.get('srcs_form'), c['types'], c.get('types_form'), c['range'], c.get('late_srcs'), c.get('late_form'), c.get('options')]))
         ctx.case(key, nontrivial=nm > 0)
         ctx.count('log:' + c['origin'].split(':')[0])
         ctx.count('filters:' + features(c))
@@ -585,7 +616,7 @@ def run(ctx):
                             'seen after 12 messages of its type, one log > 80 KiB; per log: all 32 return_* combinations (with and without filters), all subsets '
                             'of <= 4 present types (+ an absent type) and type filters of 1 .. 40 requested types (mostly absent, spread over the 16-bit range, duplicates, set / list / tuple / payload classes) on logs with 7 present types incl. one of > 1000 messages, x sampled ranges (absolute given or inferred, each end a float / Timestamp / invalid Timestamp / None in all mixtures, preset t0, open and closed, '
                             'whole and fractional, before / inside / after the log), all subsets of present source ids (+ an absent one) through the constructor '
-                            'and through filter_in_place, max_bytes at every message start / header end / message end +-1. fractional first P1 time with fractional relative ends, large messages (1 KiB .. 16 384 B), P1 times up to 1.3e9 s; max_bytes inside a message that the type / source / time filter skips, with index-only flag sets; bare / list / tuple argument forms; index loaded from a saved file, progress / gap-warning options, .p1log / .bin file names; caller arguments and return_* options unchanged afterwards. A case is distinct by (log, options); '
+                            'and through filter_in_place, max_bytes at every message start / header end / message end +-1. fractional first P1 time with fractional relative ends, large messages (1 KiB .. 16 384 B), P1 times up to 1.3e9 s; max_bytes inside a message that the type / source / time filter skips, with index-only flag sets; bare / list / tuple / generator / iterator / map / dict-keys / frozenset / numpy / range argument forms, falsy-but-meaningful values (type 0, source 0, empty requests), negative / reversed / equal time bounds; index loaded from a saved file, progress / gap-warning options, .p1log / .bin file names; caller arguments and return_* options unchanged afterwards. A case is distinct by (log, options); '
                             'non-trivial when the log is not empty. Every case is run a second time with all return_* options on to identify the messages returned; yielded pieces are compared both inside the loop and after collecting all results (list(reader)), and header / payload objects must be distinct between results.') % len(K.fixed_logs())
     ctx.coverage['exhaustive'] = False
     ctx.trusted_base += ['Coq 8.16.1 kernel + vm_compute', 'extraction (ExtrOcamlBasic only), ocaml/conv.ml + c10_driver.ml',
